@@ -6,6 +6,8 @@ package main
 // classified by the encoder they apply to their payload; float text is tracked in a small abstract domain.
 
 import (
+	"bytes"
+	"encoding/json"
 	"go/ast"
 	"go/constant"
 	"go/token"
@@ -111,6 +113,43 @@ func (c *Ctx) stringHelperClass(fn *types.Func) (class, why string) {
 			class = "json"
 			n++
 			continue
+		}
+		// a fast path for one concrete input (`if len(val) == 0 { return `+"`\"\"`"+` }`): the constant must be what the JSON encoder
+		// emits for that very string (computed here with encoding/json itself, escapeHTML off)
+		if k, isK := isConstStringTerm(p.Vals[0]); isK && len(p.Effects()) == 0 {
+			pinned, pinOK := "", false
+			only := true
+			for _, cd := range p.Conds() {
+				b, ok := simplify(cd.T).(TBin)
+				if !ok || b.Op != token.EQL || !cd.Truth {
+					only = false
+					continue
+				}
+				for _, pair := range [][2]Term{{b.X, b.Y}, {b.Y, b.X}} {
+					if z, isZ := constInt(pair[1]); isZ && z == 0 {
+						if bl, ok := pair[0].(TBuiltin); ok && bl.Name == "len" && len(bl.Args) == 1 && isParamTerm(bl.Args[0], par) {
+							pinned, pinOK = "", true
+						}
+					}
+					if ks, isS := isConstStringTerm(pair[1]); isS && isParamTerm(pair[0], par) {
+						pinned, pinOK = ks, true
+					}
+				}
+			}
+			if pinOK && only && len(p.Conds()) == 1 {
+				var buf bytes.Buffer
+				enc := json.NewEncoder(&buf)
+				enc.SetEscapeHTML(false)
+				if err := enc.Encode(pinned); err != nil || strings.TrimSuffix(buf.String(), "\n") != k {
+					return "", "a fast path returns " + strconv.Quote(k) + " for the input " + strconv.Quote(pinned) + ", which is not what the JSON encoder emits for it"
+				}
+				if class != "" && class != "json" {
+					return "", "paths of the helper use different encoders"
+				}
+				class = "json"
+				n++
+				continue
+			}
 		}
 		cls, w, feasible := c.encoderPath(p, par)
 		if !feasible {
@@ -1319,14 +1358,37 @@ func (c *Ctx) emitted(fd *ast.FuncDecl, paths []*Path, n int64) ([]sTok, string)
 	v := c.view(fd)
 	// the path that is not an in-loop exit
 	e := &emitter{c: c, v: v, fd: fd, n: n, iter: -1, bools: map[string]bool{}, ints: map[string]int64{}, bufs: map[string][]sTok{}, lists: map[string][][]sTok{}, strs: map[string][]sTok{}, serName: c.FuncObj(fd).Name()}
-	// the path taken for n elements: decisions outside the loop may only depend on the element count (an empty fast path)
-	var main *Path
+	// the path taken for n elements: decisions outside the loop may only depend on the element count (an empty fast path). Whether
+	// the spine is nil is such a decision for n > 0 (it is not); for n == 0 it may be either, and both ways must emit the same text.
+	nilSpine := func(t Term) (bool, bool) { // (is `spine == nil` / `!=`, value when the spine is nil)
+		b, ok := t.(TBin)
+		if !ok || (b.Op != token.EQL && b.Op != token.NEQ) {
+			return false, false
+		}
+		for _, pair := range [][2]Term{{b.X, b.Y}, {b.Y, b.X}} {
+			if _, isNil := pair[1].(TNil); isNil && v.isRecvSpine(pair[0]) {
+				return true, b.Op == token.EQL
+			}
+		}
+		return false, false
+	}
+	var feasiblePaths []*Path
 	for _, p := range paths {
 		if p.End != "return" || len(p.Vals) != 1 {
 			return nil, "a path does not return the text"
 		}
 		feasible := true
 		for _, cd := range p.Conds() {
+			if is, whenNil := nilSpine(cd.T); is {
+				if n == 0 {
+					continue // free: a nil and an empty spine both have no elements
+				}
+				if (!whenNil) != cd.Truth {
+					feasible = false
+					break
+				}
+				continue
+			}
 			te := &termEnv{hook: e.hook}
 			b, ok := te.bool(cd.T)
 			if !ok {
@@ -1337,22 +1399,29 @@ func (c *Ctx) emitted(fd *ast.FuncDecl, paths []*Path, n int64) ([]sTok, string)
 				break
 			}
 		}
-		if !feasible {
-			continue
+		if feasible {
+			feasiblePaths = append(feasiblePaths, p)
 		}
-		if main != nil {
-			return nil, "more than one path (a data-dependent shortcut)"
-		}
-		main = p
 	}
-	if main == nil {
+	if len(feasiblePaths) == 0 {
 		return nil, "no path"
 	}
-	if !e.steps(main.Steps) {
-		return nil, e.why
+	var first []sTok
+	for i, main := range feasiblePaths {
+		ei := &emitter{c: c, v: v, fd: fd, n: n, iter: -1, bools: map[string]bool{}, ints: map[string]int64{}, bufs: map[string][]sTok{}, lists: map[string][][]sTok{}, strs: map[string][]sTok{}, serName: c.FuncObj(fd).Name()}
+		if !ei.steps(main.Steps) {
+			return nil, ei.why
+		}
+		out := mergeToks(ei.tokens(main.Vals[0]))
+		if i == 0 {
+			first = out
+			continue
+		}
+		if tokStr(out) != tokStr(first) {
+			return nil, "more than one path (a data-dependent shortcut)"
+		}
 	}
-	out := mergeToks(e.tokens(main.Vals[0]))
-	return out, ""
+	return first, ""
 }
 
 // ---------------------------------------------------------------- container serialisers
@@ -1546,12 +1615,27 @@ func refineTags(text Term, tags tagSet, cd Cond) tagSet {
 				has = func(tag string) bool { return tag == "Fm" || tag == "Em" }
 			}
 		case "strings.ContainsAny":
-			if s, ok := isConstStringTerm(x.Args[1]); ok && strings.Contains(s, ".") {
-				if strings.ContainsAny(s, "eE") {
-					has = func(tag string) bool { return tag != "Fn" }
-				} else {
-					has = func(tag string) bool { return tag == "Fm" || tag == "Em" }
+			if s, ok := isConstStringTerm(x.Args[1]); ok {
+				// the exponent letter the text can contain is the one of its FormatFloat verb
+				exp := ""
+				if fc, ok := text.(TCall); ok && len(fc.Args) == 4 {
+					if verb, ok := constInt(simplify(fc.Args[1])); ok {
+						switch rune(verb) {
+						case 'e', 'g':
+							exp = "e"
+						case 'E', 'G':
+							exp = "E"
+						}
+					}
 				}
+				definite := func(tag string) bool {
+					return strings.Contains(s, ".") && (tag == "Fm" || tag == "Em") || exp != "" && strings.Contains(s, exp) && (tag == "En" || tag == "Em")
+				}
+				if strings.Trim(s, ".eE") != "" && truth {
+					// a digit or a sign in the set: any text may contain it, the positive outcome says nothing
+					return tags
+				}
+				has = definite
 			}
 		}
 	case TBin:
@@ -1617,7 +1701,16 @@ func c01FloatMarking(c *Ctx) {
 			return
 		}
 		v := c.view(fd)
-		paths := v.flagNorm(c.serSX().Run(fd)) // a hand-written scan for the decimal point reads as strings.ContainsRune
+		// string -> string helpers of the float serialiser ("append .0 unless there is a point") are followed; if one of them is outside the
+		// path vocabulary it stays an opaque call, as for the other serialisers
+		raw := c.NewSX().Run(fd)
+		for _, p := range raw {
+			if p.Why != "" {
+				raw = c.serSX().Run(fd)
+				break
+			}
+		}
+		paths := v.flagNorm(raw) // a hand-written scan for the decimal point reads as strings.ContainsRune
 		for i, p := range paths {
 			paths[i] = mapPath(p, func(t Term) (Term, bool) { return c.normByteStrings(t), true })
 		}
